@@ -823,10 +823,10 @@ class Interp:
             info = self.func_info(fn)
             if info is not None:
                 return self.call_function(fn, info, args, kwargs)
-            if fn is re.match and contains_sym(list(args)):
+            if (fn is re.match or fn is re.search) and contains_sym(list(args)):
                 from . import rx
                 pat = re.compile(args[0], *args[2:])
-                return rx.pattern_method(self, pat, "match", [args[1]], {})
+                return rx.pattern_method(self, pat, "match" if fn is re.match else "search", [args[1]], {})
             return self.call_native(fn, args, kwargs)
         if isinstance(fn, IFunction):
             return self.call_ifunction(fn, args, kwargs)
